@@ -57,7 +57,8 @@ class ChildCtx:
     def normal_exit(self):
         # What a clean interpreter shutdown does for user-visible state: flush buffered files.
         try:
-            objs = gc.get_objects() if getattr(self, 'full_flush', False) else gc.get_objects(generation=0) + gc.get_objects(generation=1)
+            # the heap inherited from the worker was frozen at fork (see _fresh_gc_state): this lists only objects made here
+            objs = gc.get_objects()
             for obj in objs:
                 try:
                     if isinstance(obj, (io.BufferedWriter, io.TextIOWrapper, io.BufferedRandom)) and not obj.closed:
@@ -73,24 +74,83 @@ class ChildCtx:
             os._exit(0)
 
 
+def _forget_inherited_file_cache():
+    """A lifetime starts with an empty xarray file-handle cache: whatever the parent worker happened to hold
+    (entries that only go away when its garbage collector runs) must not count against the per-run cache size,
+    or the moment a work file is really closed would depend on the worker's earlier runs."""
+    fm = sys.modules.get('xarray.backends.file_manager')
+    if fm is None:
+        return
+    try:
+        cache = fm.FILE_CACHE
+        with cache._lock:
+            cache._cache.clear()   # forget, do not close: the handles belong to the parent
+    except Exception:
+        pass
+
+
+_RUN_TAG = 'norun'
+_LIFETIME_NO = 0
+
+
+def seed_uuid(tag):
+    """uuid.uuid1 / uuid.uuid4 behind a seam: dask names graph keys after uuid4().hex and breaks ties in its static
+    task order by comparing key names, so the order in which independent tasks (the variables of one save, the chunks
+    of one read) run is decided by these 'random' names.  Here they come from a PRNG seeded by the plan."""
+    import random
+    import uuid
+    rng = random.Random(f'uuid/{tag}')
+
+    def uuid4():
+        return uuid.UUID(int=rng.getrandbits(128), version=4)
+
+    def uuid1(node=None, clock_seq=None):
+        return uuid.UUID(int=rng.getrandbits(128), version=1)
+    uuid.uuid4 = uuid4
+    uuid.uuid1 = uuid1
+
+
+def begin_run(plan):
+    """Called by core.execute before an engine runs a plan: everything 'random' below is a function of the plan."""
+    global _RUN_TAG, _LIFETIME_NO
+    import json
+    _RUN_TAG = json.dumps([plan.get('engine'), plan.get('seed')], sort_keys=True)
+    _LIFETIME_NO = 0
+    seed_uuid(_RUN_TAG)
+
+
+def _fresh_gc_state():
+    """The cyclic collector decides when unreferenced file managers are finalised (and their files closed).  Its
+    counters and the size of the old generation are inherited from the worker at fork and so depend on the worker's
+    earlier runs.  Freezing the inherited heap and running one (now empty, instantaneous) full collection zeroes every
+    counter: from here on collection times are a function of this lifetime's own allocations."""
+    gc.freeze()
+    gc.collect()
+
+
 def run_lifetime(fn, *args, timeout=120.0):
     """
     Run fn(ctx, *args) in a forked child.  Returns dict(status, code, events, obs, error).
     status: 'exit' | 'crash' (137) | 'harness_error' | 'timeout'
     """
+    global _LIFETIME_NO
     r, w = os.pipe()
     sys.stdout.flush()
     sys.stderr.flush()
+    _LIFETIME_NO += 1
     pid = os.fork()
     if pid == 0:
         code = 0
         try:
             os.close(r)
+            seed_uuid(f'{_RUN_TAG}/lifetime{_LIFETIME_NO}')
             signal.signal(signal.SIGTERM, signal.SIG_DFL)
             signal.signal(signal.SIGINT, signal.SIG_DFL)
             faulthandler.enable()
             faulthandler.dump_traceback_later(timeout + 5, exit=True)
             ctx = ChildCtx(w)
+            _forget_inherited_file_cache()
+            _fresh_gc_state()
             try:
                 fn(ctx, *args)
             except BaseException:
